@@ -15,6 +15,9 @@ trusted Redis/Lua model), about the translated `broker_history_add_stream.lua`:
 * `redis_version_suppressed` — with version `≠ "0"`, a stored version `v`, matching (or empty) version
   epoch and `tonumber v ≥ tonumber version` the reply is `{offset, epoch, "0", "1"}` and the state is
   **unchanged**;
+* `redis_store_offset_increments`, `redis_first_publish_creates_epoch` — a stored (unversioned) publication
+  is answered with the old offset + 1 and the kept / newly created epoch, whatever the size, TTLs,
+  payload, channel and delta flag (for every run that does not abort with a Lua/Redis error);
 * `redis_unversioned_skips_version_step` — `version = "0"` never reads or writes `v`/`ve`
   (the memory broker used to overwrite its top version with 0: finding C18-5, fixed in /repo by a5ec69f4).
 
@@ -23,8 +26,9 @@ stream positions") is **not** proved in Lean: it is checked by the differential 
 (translated scripts + Redis model + Go-glue model vs. the real `MemoryBroker`).  The full statement
 would be
 `theorem redis_stream_sim_memory : ∀ ops, Agree (runRedis ops) (HistoryHub.runOut mem ops)`
-for op sequences outside the eleven listed differences; what is missing is the store path
-(`HINCRBY`/`XADD MAXLEN`/`EXPIRE`/`PUBLISH`) as a closed form and the simulation relation over TTLs.
+for op sequences outside the listed differences; what is missing is the *state* after the store path
+(`XADD MAXLEN` trimming = memory trimming, TTLs) as a closed form, the versioned store path, the history
+script, and the simulation relation itself.
 
 The decided examples at the end are the Lean halves of the findings (the differences are real
 under the property text; each is replayed on the real memory broker by the check).
@@ -78,6 +82,45 @@ theorem redis_version_suppressed (sk mk rk : String) (a : AddArgs) (s : Redis)
 theorem redis_unversioned_skips_version_step (sk mk rk : String) (a : AddArgs) (s : Redis) (ep : LVal)
     (hver : a.ver = "0") : run (P4 sk mk rk a ep) s = run (P5 sk mk rk a ep) s :=
   p4_unversioned sk mk rk a s ep hver
+
+/-- **Offsets increase by one per stored publication** (existing epoch, unversioned publish, no cached
+result): whenever the script finishes without a Lua/Redis error, the reply is
+`{old offset + 1, stored epoch, "0", "0"}`, where the old offset is the meta hash's `s` (0 when absent).
+Holds for every stream size, TTL, channel, publish command, payload and delta flag. -/
+theorem redis_store_offset_increments (sk mk rk : String) (a : AddArgs) (s : Redis)
+    (hr hm : List (String × String)) (e : String) (c : Int)
+    (hrk : HashAt s rk hr) (hmiss : a.rexp = "" ∨ hlookup hr "e" = none)
+    (hmk : HashAt s mk hm) (he : hlookup hm "e" = some e) (hver : a.ver = "0")
+    (hc : curOffset hm = some c) (hsmall : (c + 1).natAbs < 2 ^ 53)
+    (r : LVal) (s' : Redis)
+    (hrun : run (broker_history_add_stream (keysT sk mk rk) a.argv) s = (.ok r, s')) :
+    r = storedReply (.num (c + 1)) (.str e) := by
+  rw [redis_idempotent_miss_reaches_epoch_step sk mk rk a s hr hrk hmiss,
+    redis_epoch_kept sk mk rk a s hm e hmk he, p4_unversioned sk mk rk a s (.str e) hver] at hrun
+  exact p5_ok sk mk rk a s hm e c hmk hc hsmall r s' hrun
+
+/-- **The epoch is created once**: on a channel without epoch the first stored publication is answered with
+`new_epoch_if_empty` and offset `old + 1` (1 on a fresh channel). -/
+theorem redis_first_publish_creates_epoch (sk mk rk : String) (a : AddArgs) (s : Redis)
+    (hr hm : List (String × String)) (c : Int)
+    (hrk : HashAt s rk hr) (hmiss : a.rexp = "" ∨ hlookup hr "e" = none)
+    (hmk : HashAt s mk hm) (he : hlookup hm "e" = none) (hver : a.ver = "0")
+    (hc : curOffset hm = some c) (hsmall : (c + 1).natAbs < 2 ^ 53)
+    (r : LVal) (s' : Redis)
+    (hrun : run (broker_history_add_stream (keysT sk mk rk) a.argv) s = (.ok r, s')) :
+    r = storedReply (.num (c + 1)) (.str a.fresh) := by
+  rw [redis_idempotent_miss_reaches_epoch_step sk mk rk a s hr hrk hmiss,
+    redis_epoch_created sk mk rk a s hm hmk he, p4_unversioned sk mk rk a _ (.str a.fresh) hver] at hrun
+  have hk1 : HashAt (putHash s mk (hset1 hm "e" a.fresh)) mk (hset1 hm "e" a.fresh) :=
+    getHash_putHash s mk _ (hset1_ne_nil hm "e" a.fresh)
+  have hc1 : curOffset (hset1 hm "e" a.fresh) = some c := by
+    unfold curOffset at hc ⊢
+    rw [hlookup_hset1_ne hm "e" "s" a.fresh (by decide)]
+    exact hc
+  exact p5_ok sk mk rk a _ _ a.fresh c hk1 hc1 hsmall r s' hrun
+
+example : curOffset [("e", "E1"), ("v", "5"), ("ve", ""), ("s", "1")] = some 1 := by decide
+example : curOffset [] = some 0 := by decide
 
 /-! ### the hypotheses are satisfiable: a concrete state and call -/
 
